@@ -502,6 +502,28 @@ fn canonical(tier: Tier) -> Vec<KCase> {
                 busy: None,
             });
         }
+        if via == Via::Lib {
+            // a large snapshot replaced by one as large (tens of MiB each: whatever a backend does
+            // to make room - free, reuse, stage - happens here at scale, and must leave the old or
+            // the new one at every crash point)
+            let sz = tier.pick(25u32 << 20, 34 << 20);
+            let ops = vec![
+                Op::AddVersion { c: 0, parent: IdRef::Nil, data: d(1, 30) },
+                Op::AddSnapshot { c: 0, version: IdRef::Latest(0), data: d(2, sz) },
+                Op::AddVersion { c: 0, parent: IdRef::Latest(0), data: d(3, 400) },
+                Op::AddSnapshot { c: 0, version: IdRef::Latest(0), data: d(4, sz + 4096) },
+            ];
+            out.push(KCase {
+                via,
+                case: Case { cfg: Default::default(), salt: 8, nclients: 1, ops },
+                subsets: vec![0xA5A5_5A5A],
+                continuation: vec![Op::GetSnapshot { c: 0 }, Op::AddVersion { c: 0, parent: IdRef::Latest(0), data: d(8, 12) }],
+                max_points: tier.pick(16, 200),
+                point_salt: 5,
+                deep: false,
+                busy: None,
+            });
+        }
         // lock contention: another connection holds the write lock while an AddVersion (the
         // first of a new client, the next of a chain) is handled - for less than the lock-wait
         // budget, for one, two, three ... budgets - and then lets go
@@ -743,7 +765,8 @@ pub fn check_file_fault(fc: &FLCase, st: &mut Stats) -> CheckResult {
             })?;
         }
         if t0.elapsed() > std::time::Duration::from_millis(2500) {
-            return Err(Fail::Inconclusive(format!("{what}: later requests took {:?} (lock wait?)", t0.elapsed())));
+            // slow, but served; on a busy machine this says nothing
+            st.label("c05:later-requests-served-but-slow");
         }
         st.sample(|| serde_json::json!({"case": fc, "injected": format!("{injected:?}"), "answer": out.short()}));
         Ok(())
@@ -851,14 +874,13 @@ pub struct KillCase {
 
 fn start_server(bin: &std::path::Path, dir: &std::path::Path) -> Result<crate::props::binary::Proc, Fail> {
     for _ in 0..4 {
-        let l = std::net::TcpListener::bind("127.0.0.1:0").map_err(|e| Fail::Inconclusive(format!("no loopback port: {e}")))?;
-        let port = l.local_addr().unwrap().port();
-        drop(l);
+        let port = crate::props::binary::free_port("127.0.0.1").ok_or_else(|| Fail::Inconclusive("no loopback port".into()))?;
         let launch = crate::props::binary::Launch {
             args: vec!["--data-dir".into(), dir.to_string_lossy().into_owned(), "--listen".into(), format!("127.0.0.1:{port}")],
             env: vec![],
             connect: vec![format!("127.0.0.1:{port}").parse().unwrap()],
             cwd: None,
+            dir_arg: None,
         };
         if let Ok(p) = crate::props::binary::spawn(bin, &launch) {
             return Ok(p);
